@@ -124,27 +124,28 @@ theorem gamma_direction_refutes {J : Interp} {M : HTI} (hm : C05.Merges J M) (ρ
     · exact h1 F hF
     · exact (C05.gamma_correct hm F' ρ).mp (h2 F' hF')
 
-/-- **C03 for the tau\* representation, every flag combination.** Some emitted problem is refuted
+/-- **C03, both representations and every flag combination.** Some emitted problem is refuted
     by the classical interpretation that merges `(H,T)` iff the h-extents are included in the
     t-extents (on the programs' predicates) and `(H,T)` satisfies one program but not the other, in a
     direction the task asks for. Hypotheses: the pass bound sufficed (`strongProblems … = some ps`),
     no usize overflow of the global variables, `rename_conflicting_symbols` is the identity on the
     assembled problems (`NoSymbolConflict`; otherwise the statement is about renamed constants),
-    and - only when simplification is on - `H ⊆ T` everywhere (the HT portfolio is an
-    HT-equivalence for such interpretations; for `H ⊄ T` on a program predicate the left side is
+    and - only when simplification is on or the mu representation is used - `H ⊆ T` everywhere
+    (the HT portfolio and the natural translation are HT-equivalences for such interpretations; for `H ⊄ T` on a program predicate the left side is
     false by the transition axioms alone, see `strong_refutes_needs_sub`). -/
-theorem strong_refutes (t : StrongTask) (hrep : t.rep = .tauStar) (fuel : Nat) (ps : List Problem)
+theorem strong_refutes (t : StrongTask) (fuel : Nat) (ps : List Problem)
     (h : strongProblems t fuel = some ps)
     (hpl : globalsPanic t.left = false) (hpr : globalsPanic t.right = false)
     (hnc : NoSymbolConflict t fuel)
-    {J : Interp} {M : HTI} (hm : C05.Merges J M) (hsub : t.simplify = true → M.Sub) (ρ : Asg) :
+    {J : Interp} {M : HTI} (hm : C05.Merges J M)
+    (hsub : (t.simplify = true ∨ t.rep = .mu) → M.Sub) (ρ : Asg) :
     (∃ P ∈ ps, Refutes J ρ P) ↔
       SubOn M (ext t.left.preds t.right.preds) ∧
       (((t.direction = .universal ∨ t.direction = .forward) ∧
           progSat M .here t.left ∧ ¬ progSat M .here t.right) ∨
        ((t.direction = .universal ∨ t.direction = .backward) ∧
           progSat M .here t.right ∧ ¬ progSat M .here t.left)) :=
-  Anthem.strong_refutes t hrep fuel ps h hpl hpr hnc hm hsub ρ
+  Anthem.strong_refutes t fuel ps h hpl hpr hnc hm hsub ρ
 
 /-- Without any hypothesis on `(H,T)`, representation or flags: an interpretation whose h-extents
     are not included in its t-extents (on a predicate of the programs) refutes no emitted problem. -/
@@ -156,7 +157,7 @@ theorem strong_refutes_needs_sub (t : StrongTask) (fuel : Nat) (ps : List Proble
 
 /-- Hence: all emitted problems of a universal task are free of standard countermodels exactly when
     the two programs have the same here-and-there models, i.e. are strongly equivalent. -/
-theorem strongly_equivalent_iff (t : StrongTask) (hrep : t.rep = .tauStar)
+theorem strongly_equivalent_iff (t : StrongTask)
     (hdir : t.direction = .universal) (fuel : Nat) (ps : List Problem)
     (h : strongProblems t fuel = some ps)
     (hpl : globalsPanic t.left = false) (hpr : globalsPanic t.right = false)
@@ -167,7 +168,7 @@ theorem strongly_equivalent_iff (t : StrongTask) (hrep : t.rep = .tauStar)
   · intro hall M hs
     obtain ⟨J, hm⟩ := C05.merge_exists M
     have hno := hall J M hm hs (fun _ => .inf)
-    rw [strong_refutes t hrep fuel ps h hpl hpr hnc hm (fun _ => hs)] at hno
+    rw [strong_refutes t fuel ps h hpl hpr hnc hm (fun _ => hs)] at hno
     have hsubon : SubOn M (ext t.left.preds t.right.preds) := fun p _ ds _ hh => hs _ _ hh
     constructor
     · intro hL
@@ -175,7 +176,7 @@ theorem strongly_equivalent_iff (t : StrongTask) (hrep : t.rep = .tauStar)
     · intro hR
       exact Classical.byContradiction fun hL => hno ⟨hsubon, Or.inr ⟨Or.inl hdir, hR, hL⟩⟩
   · intro hall J M hm hs ρ href
-    rw [strong_refutes t hrep fuel ps h hpl hpr hnc hm (fun _ => hs)] at href
+    rw [strong_refutes t fuel ps h hpl hpr hnc hm (fun _ => hs)] at href
     obtain ⟨_, ⟨_, hL, hR⟩ | ⟨_, hR, hL⟩⟩ := href
     · exact hR ((hall M hs).mp hL)
     · exact hL ((hall M hs).mpr hR)
